@@ -138,22 +138,46 @@ pub fn maintain() {
     }
 }
 
+/// Optional external ledger (C08: the process's global allocator is the
+/// rsguest checking allocator, which has its own guest/host tag): called with
+/// the new mode (`true` = guest) on every mode switch.
+static MODE_HOOK: std::sync::atomic::AtomicPtr<()> = std::sync::atomic::AtomicPtr::new(std::ptr::null_mut());
+
+pub fn set_mode_hook(f: fn(bool)) {
+    MODE_HOOK.store(f as *mut (), Relaxed);
+}
+
+#[inline]
+fn mode_hook(guest: bool) {
+    let p = MODE_HOOK.load(Relaxed);
+    if !p.is_null() {
+        // SAFETY: only `set_mode_hook` stores into MODE_HOOK, always a `fn(bool)`
+        let f: fn(bool) = unsafe { std::mem::transmute::<*mut (), fn(bool)>(p) };
+        f(guest);
+    }
+}
+
 pub struct ModeGuard(bool);
 impl Drop for ModeGuard {
     fn drop(&mut self) {
         GUEST.store(self.0, Relaxed);
+        mode_hook(self.0);
     }
 }
 /// Run in host mode (allocations are not entered into the ledger) until the
 /// guard drops.
 #[inline]
 pub fn host_mode() -> ModeGuard {
-    ModeGuard(GUEST.swap(false, Relaxed))
+    let g = ModeGuard(GUEST.swap(false, Relaxed));
+    mode_hook(false);
+    g
 }
 /// Run in guest mode until the guard drops.
 #[inline]
 pub fn guest_mode() -> ModeGuard {
-    ModeGuard(GUEST.swap(true, Relaxed))
+    let g = ModeGuard(GUEST.swap(true, Relaxed));
+    mode_hook(true);
+    g
 }
 pub fn in_guest_mode() -> bool {
     GUEST.load(Relaxed)
